@@ -5,6 +5,7 @@ import (
 	"errors"
 	"fmt"
 	"hash/fnv"
+	"sync/atomic"
 
 	"github.com/fxamacker/cbor/v2"
 	"github.com/onflow/atree"
@@ -280,3 +281,82 @@ func someWrapperSize(n int) uint32 {
 		return 2 + 1 + atree.GetUintCBORSize(uint64(n))
 	}
 }
+
+// ---------------------------------------------------------------------------------------------
+// Harness-defined storable used by the concurrency checks: a byte string whose Encode yields
+// (scheduling jitter inside encoder workers) or fails on demand. It is encoded as a plain CBOR
+// byte string, a major type none of the test_utils storables use, so the wrapping decoder below
+// can recognise it without consuming anything test_utils needs. Only used as a direct element of
+// root-level slabs (the test_utils decoder recurses with itself inside wrappers / inlined slabs).
+
+type BlobValue struct {
+	ID  uint64
+	Pad uint32
+}
+
+var _ atree.Value = BlobValue{}
+var _ atree.Storable = BlobValue{}
+
+// blobHook is called at the start of every BlobValue.Encode / decode; returning an error makes it fail.
+var blobEncodeHook atomic.Value // func(id uint64) error
+var blobDecodeHook atomic.Value // func(id uint64) error
+
+var ErrBlob = errors.New("verif: injected storable fault")
+
+func (v BlobValue) payloadLen() int { return 8 + int(v.Pad) }
+
+func (v BlobValue) ByteSize() uint32 {
+	n := uint64(v.payloadLen())
+	return atree.GetUintCBORSize(n) + uint32(n)
+}
+
+func (v BlobValue) Encode(enc *atree.Encoder) error {
+	if h, ok := blobEncodeHook.Load().(func(uint64) error); ok && h != nil {
+		if err := h(v.ID); err != nil {
+			return err
+		}
+	}
+	b := make([]byte, v.payloadLen())
+	binary.BigEndian.PutUint64(b, v.ID)
+	for i := 8; i < len(b); i++ {
+		b[i] = byte(v.ID) + byte(i)
+	}
+	return enc.CBOR.EncodeBytes(b)
+}
+
+func (v BlobValue) StoredValue(atree.SlabStorage) (atree.Value, error) { return v, nil }
+func (v BlobValue) ChildStorables() []atree.Storable                   { return nil }
+func (v BlobValue) CanCopyNonRefSimple() bool                          { return true }
+func (v BlobValue) CopyNonRefSimple() (atree.Storable, error)          { return v, nil }
+func (v BlobValue) Storable(st atree.SlabStorage, addr atree.Address, max uint32) (atree.Storable, error) {
+	if v.ByteSize() > max {
+		return atree.NewStorableSlab(st, addr, v, v.ByteSize())
+	}
+	return v, nil
+}
+
+func decodeStorableWithBlob(dec *cbor.StreamDecoder, id atree.SlabID, inlined []atree.ExtraData) (atree.Storable, error) {
+	t, err := dec.NextType()
+	if err != nil {
+		return nil, err
+	}
+	if t == cbor.ByteStringType {
+		b, err := dec.DecodeBytes()
+		if err != nil {
+			return nil, err
+		}
+		if len(b) < 8 {
+			return nil, fmt.Errorf("verif: short blob")
+		}
+		v := BlobValue{ID: binary.BigEndian.Uint64(b), Pad: uint32(len(b) - 8)}
+		if h, ok := blobDecodeHook.Load().(func(uint64) error); ok && h != nil {
+			if err := h(v.ID); err != nil {
+				return nil, err
+			}
+		}
+		return v, nil
+	}
+	return tu.DecodeStorable(dec, id, inlined)
+}
+
+func init() { decodeStorable = decodeStorableWithBlob }
